@@ -568,6 +568,22 @@ impl Plan {
     }
 }
 
+/// content classes (rather than sizes): all-zero, all-ones, and one value shared by every byte
+/// member so that two members can carry the very same value
+fn content_bytes(len: usize) -> Vec<V> {
+    vec![V::B(vec![0x00; len]), V::B(vec![0xff; len]), V::B(vec![0x5a; 16.min(len)])]
+}
+
+/// reserved / unusual characters, an embedded NUL, surrounding blanks, mixed-width non-ASCII, and
+/// one value shared by every text member
+fn content_texts(max: usize) -> Vec<V> {
+    ["a.b-c_d:/?#[]@!$&'()*+,;=%20", "\u{0}x\u{0}", " lead and trail ", "\u{c4}\u{d6}\u{20ac}\u{1f600}", "same-value", "{\"k\":[1,2]}", "\\\"\n\t"]
+        .iter()
+        .filter(|s| s.len() <= max)
+        .map(|s| V::t(s))
+        .collect()
+}
+
 fn dedup(mut v: Vec<V>) -> Vec<V> {
     let mut out: Vec<V> = Vec::new();
     for x in v.drain(..) {
@@ -624,7 +640,11 @@ pub fn menu(ty: &Ty, id: usize, side: Side) -> Vec<V> {
             let d = id % 2 == 0;
             vec![V::Bool(d), V::Bool(!d)]
         }
-        Ty::Bytes(None) => lens_bytes(&[32, 0, 1, 23, 24, 31, 33, 255, 256, 1024]),
+        Ty::Bytes(None) => {
+            let mut v = lens_bytes(&[32, 0, 1, 23, 24, 31, 33, 255, 256, 1024]);
+            v.extend(content_bytes(32));
+            v
+        }
         Ty::Bytes(Some(c)) => {
             let c = *c;
             let mut lens = vec![c.min(16 + id % 5), 0, c.min(1), c.saturating_sub(1), c];
@@ -633,10 +653,16 @@ pub fn menu(ty: &Ty, id: usize, side: Side) -> Vec<V> {
                     lens.push(t);
                 }
             }
-            lens_bytes(&lens)
+            let mut v = lens_bytes(&lens);
+            v.extend(content_bytes(c.min(16)));
+            v
         }
         Ty::BytesExact(n) => vec![V::B(fill_bytes(*n, id)), V::B(vec![0; *n]), V::B(vec![0xff; *n])],
-        Ty::Text(None) => lens_text(&[11, 0, 1, 23, 24, 255, 256, 300]),
+        Ty::Text(None) => {
+            let mut v = lens_text(&[11, 0, 1, 23, 24, 255, 256, 300]);
+            v.extend(content_texts(usize::MAX));
+            v
+        }
         Ty::Text(Some(c)) => {
             let c = *c;
             let mut lens = vec![c.min(10), 0, 1, c - 1, c];
@@ -645,12 +671,15 @@ pub fn menu(ty: &Ty, id: usize, side: Side) -> Vec<V> {
                     lens.push(t);
                 }
             }
-            lens_text(&lens)
+            let mut v = lens_text(&lens);
+            v.extend(content_texts(c));
+            v
         }
         Ty::TextTrunc(n) => {
             let n = *n;
             let mut v = lens_text(&[8, 0, 1, n - 1, n]);
             v.push(V::t(&fill_wide(n, 2)));
+            v.extend(content_texts(n));
             if req {
                 v.extend(lens_text(&[n + 1, 200]));
                 v.push(V::t(&fill_wide(n + 2, 3)));
@@ -662,6 +691,7 @@ pub fn menu(ty: &Ty, id: usize, side: Side) -> Vec<V> {
         Ty::TextSkip(n) => {
             let n = *n;
             let mut v = lens_text(&[12, 0, 1, n - 1, n]);
+            v.extend(content_texts(n));
             if req {
                 v.extend(lens_text(&[n + 1, 300]));
             }
